@@ -676,6 +676,11 @@ func checkC18(c CaseC18, info *Info) *Failure {
 		if d := diffState(mxj.VerifOptionState(), m.hookState()); d != "" {
 			return failf("harness-state-leak", "the prediction battery changed the options: %s", d)
 		}
+		// only the setters change options: encoders, decoders, BeautifyXml, the wrappers ... leave every option as it is
+		bystanders()
+		if d := diffState(mxj.VerifOptionState(), m.hookState()); d != "" {
+			return failf("option-changed-by-a-non-setter", "after call %d of %+v, functions that are no option setters (see bystanders) changed the option state: %s", i, c.Calls[:i+1], d)
+		}
 	}
 	// restore every default, in the drawn order
 	seen := map[int]bool{}
